@@ -21,7 +21,7 @@ ASSUMPTIONS = ["python stdlib ipaddress is a correct reference for numeric "
                "value, membership, masks and RFC 5952 text",
                "IPv4 text accepted by libc inet_aton but not dotted-quad is "
                "outside the must-reject set"]
-REQUIRED = ["ip4", "ip4net", "ip4cidr", "ip4bad", "ip6", "ip6net", "ip6bad",
+REQUIRED = ["prefix_lengths_out_of_range", "ip4", "ip4net", "ip4cidr", "ip4bad", "ip6", "ip6net", "ip6bad",
             "eth", "ethbad", "dpid", "laws", "immut"]
 TIMEOUT = {"quick": 600, "thorough": 7200}
 
@@ -282,6 +282,19 @@ def case_ip4bad (c, rep):
     fs.append(("parse_cidr", lambda: A.parse_cidr(t, infer=False)))
     fs.append(("IPAddr.parse_cidr", lambda: A.IPAddr.parse_cidr(t, infer=False)))
     fs.append(("inNetwork", lambda: A.IPAddr("1.2.3.4").inNetwork(t)))
+    if c.get("range"):
+      # a prefix length outside 0..32 is no prefix length, whatever the
+      # address in front of it and however the caller asks for it
+      base, bits = t.split("/")
+      fs.append(("parse_cidr(allow_host)", lambda: A.parse_cidr(t, allow_host=True)))
+      fs.append(("IPAddr.parse_cidr(allow_host)",
+                 lambda: A.IPAddr.parse_cidr(t, infer=False, allow_host=True)))
+      fs.append(("in_network(net, bits)",
+                 lambda: A.IPAddr("1.2.3.4").in_network(base, int(bits))))
+      fs.append(("in_network(net, 'bits')",
+                 lambda: A.IPAddr("0.0.0.0").in_network(base, bits)))
+      fs.append(("inNetwork of the address itself", lambda: A.IPAddr(base).inNetwork(t)))
+      rep.count("prefix_lengths_out_of_range")
   else:
     fs.append(("IPAddr", lambda: A.IPAddr(t)))
     fs.append(("IPAddr(bytes)", lambda: A.IPAddr(t.encode())
@@ -652,6 +665,15 @@ def case_ip6bad (c, rep):
   if "/" in t:
     fs = [("IPAddr6.parse_cidr", lambda: A.IPAddr6.parse_cidr(t)),
           ("in_network", lambda: A.IPAddr6("::1").in_network(t))]
+    if c.get("range"):
+      base, bits = t.split("/")
+      fs.append(("IPAddr6.parse_cidr(allow_host)",
+                 lambda: A.IPAddr6.parse_cidr(t, allow_host=True)))
+      fs.append(("in_network(net, bits)",
+                 lambda: A.IPAddr6("::1").in_network(base, int(bits))))
+      fs.append(("in_network of the address itself",
+                 lambda: A.IPAddr6(base).in_network(t)))
+      rep.count("prefix_lengths_out_of_range")
   else:
     fs = [("IPAddr6", lambda: A.IPAddr6(t))]
   for name, f in fs:
@@ -1025,6 +1047,10 @@ def gen (kind, rng, scale):
     for t in IP4_BAD:
       cls = "".join(ch if not ch.isdigit() else "N" for ch in t)
       yield dict(t="ip4bad", text=t, cls=cls)
+    for base in ("0.0.0.0", "10.0.0.0", "10.1.2.3", "255.255.255.255", "128.0.0.0"):
+      for bits in (-1, -2, -8, -31, -32, -33, -128, 33, 34, 40, 64, 128, 256, 1 << 32):
+        yield dict(t="ip4bad", text="%s/%d" % (base, bits), range=True,
+                   cls="prefix_out_of_range_%s" % ("neg" if bits < 0 else "big"))
     for name, ch in JUNK:
       # (not judged: text that libc's inet_aton accepts, i.e. white space
       #  after the address, and white space around the prefix length)
@@ -1094,6 +1120,10 @@ def gen (kind, rng, scale):
   elif kind == "ip6bad":
     for n in (0, 1, 4, 15, 17, 32):
       yield dict(t="ip6bad", text=str(n), cls="raw_length_%d" % n, form="raw")
+    for base in ("::", "2001:db8::", "2001:db8::1", "ffff:ffff:ffff:ffff:ffff:ffff:ffff:ffff"):
+      for bits in (-1, -2, -64, -127, -128, -129, 129, 130, 256, 1 << 32):
+        yield dict(t="ip6bad", text="%s/%d" % (base, bits), range=True,
+                   cls="prefix_out_of_range_%s" % ("neg" if bits < 0 else "big"))
     for _ in range(60 * scale):
       for cls, t in ip6_bad_mutations(rng):
         yield dict(t="ip6bad", text=t, cls=cls)
